@@ -1,6 +1,6 @@
 SPECIFICATION Spec
 CONSTANTS Family = "findlist"
-          MaxEdits = 3
+          MaxEdits = 2
           UnivKinds = {"complete", "leafonly", "noisy"}
           WithGt = TRUE
 INVARIANT UnfoldIsDenote
